@@ -6,9 +6,8 @@ resolution `Finder`: `Context::transform`, `lock_loading`/`unlock_loading`, the 
 The theorems hold for EVERY finder — every file system, search path, spelling scheme and fault
 oracle — under the stated hypotheses; `Load.fsFinder` is the instance the driver runs.
 
-Deviation flags: `loadCssUnlockEarly` (open: load-css unlocks before the body),
-`normalizeKeepsEmpty` (open: `d//../a` keeps growing names), `loadKeyTextual` (pinned code,
-repaired by 51f269b).  The generic theorems need only `loadCssUnlockEarly = false` plus, for
+Deviation flags (all repaired by now; kept as the record of the earlier code, with refutations):
+`loadCssUnlockEarly` (a803597), `normalizeKeepsEmpty` (3fe5f5c), `loadKeyTextual` (51f269b).  The generic theorems need only `loadCssUnlockEarly = false` plus, for
 termination, that found names come from a finite set — exactly what the two key flags break.
 -/
 import RsassModel.Load.LemmasGraph
@@ -149,7 +148,7 @@ theorem acyclic_no_loop (q : LoadQuirks) (hq : q.loadCssUnlockEarly = false) (F 
 and every finder whose names are finitely many; they therefore ARE the `_partial` theorems for
 the code: -/
 
-/-- `_partial` (code today, `LoadQuirks.now`): on inputs without `meta.load-css` the early unlock
+/-- `_partial` (code before a803597, `LoadQuirks.mid`): on inputs without `meta.load-css` the early unlock
 is never executed, so the spec's results carry over: running `now` with `loadCssUnlockEarly`
 switched off changes nothing when no body contains a load-css statement. -/
 theorem loadCss_free_partial (q : LoadQuirks) (F : Finder) (enter : Str → St → Res) (self : Str)
@@ -173,12 +172,13 @@ def wLoadCss : World :=
   ⟨[([105, 110, 46, 115, 99, 115, 115], ⟨0, [.mark, .load .loadCss [97] false]⟩),
     ([97, 46, 115, 99, 115, 115], ⟨1, [.mark, .load .loadCss [97] false]⟩)], [[]], fun _ => none⟩
 
-/-- refutation (`loadCssUnlockEarly`, open): a cycle made of load-css edges.  The specification
-reports the loop; the code as it is still descends after 30 nested files (the real code
-overflows its stack), although two files exist. -/
+/-- refutation (`loadCssUnlockEarly`, repaired by a803597): a cycle made of load-css edges.  The
+specification — and the code since the repair — reports the loop; the code before it still
+descends after 30 nested files (the real code overflowed its stack), although two files exist. -/
 theorem loadCssUnlockEarly_refuted :
     (run LoadQuirks.spec wLoadCss wLoadCss.fuel [105, 110, 46, 115, 99, 115, 115]).errOf = some .loop ∧
-    (run LoadQuirks.now wLoadCss 30 [105, 110, 46, 115, 99, 115, 115]).errOf = some .fuel := by
+    (run LoadQuirks.mid wLoadCss 30 [105, 110, 46, 115, 99, 115, 115]).errOf = some .fuel ∧
+    (run LoadQuirks.now wLoadCss wLoadCss.fuel [105, 110, 46, 115, 99, 115, 115]).errOf = some .loop := by
   decide +kernel
 
 /-- world: `in.scss` = `@import "a"`, `a.scss` = `@import "d//../a"`, `d/x.scss` -/
@@ -187,12 +187,15 @@ def wEmptySeg : World :=
     ([97, 46, 115, 99, 115, 115], ⟨1, [.mark, .load .import [100, 47, 47, 46, 46, 47, 97] false]⟩),
     ([100, 47, 120, 46, 115, 99, 115, 115], ⟨2, [.mark]⟩)], [[]], fun _ => none⟩
 
-/-- refutation (`normalizeKeepsEmpty`, open; incomplete repair 51f269b): `a.scss` importing itself
-as `d//../a` — loop error in the specification, unbounded chain of distinct names in the code -/
+/-- refutation (`normalizeKeepsEmpty`; 51f269b was incomplete, completed by 3fe5f5c): `a.scss`
+importing itself as `d//../a` — loop error in the specification and in the code today, unbounded
+chain of distinct names in the code between the two commits -/
 theorem normalizeKeepsEmpty_refuted :
     (run LoadQuirks.spec wEmptySeg wEmptySeg.fuel [105, 110, 46, 115, 99, 115, 115]).errOf = some .loop ∧
     (run { LoadQuirks.spec with normalizeKeepsEmpty := true } wEmptySeg 25 [105, 110, 46, 115, 99, 115, 115]).errOf
-      = some .fuel := by
+      = some .fuel ∧
+    (run LoadQuirks.mid wEmptySeg 25 [105, 110, 46, 115, 99, 115, 115]).errOf = some .fuel ∧
+    (run LoadQuirks.now wEmptySeg wEmptySeg.fuel [105, 110, 46, 115, 99, 115, 115]).errOf = some .loop := by
   decide +kernel
 
 /-- world: `in.scss` = `@import "a"`, `a.scss` = `@import "./a"` -/
